@@ -11,7 +11,9 @@ EXPLANATION = (
     "panics when the inverse application fails) is only called from ModifiedFiles::rollback, which also undoes a rename "
     "(move_out + move_in on the is_rename path); (R3) every loop that rolls back through that API draws its PatchStatus in LIFO "
     "order (last+pop, or a reversed slice iterator); (R4) rollback replays what was recorded: recorded line, recorded fuzz level, "
-    "opposite direction. Not decided: exact content restoration and 'never aborts' in general (frozen-line arithmetic is value-level)."
+    "opposite direction, and the direction named by the caller is the one recorded in the replayed report; (R5) 'never aborts' for "
+    "stacks of hunks: the line handed on as frozen after a hunk is the end of its whole matched range, so that no later hunk changes a "
+    "line the undo of this hunk will re-match (reported today as known finding G24). Not decided: exact content restoration."
 )
 LEVEL_NOTE = "Undecided: content equality after undo; abort on a hunk that changed a line of the previous hunk's trailing context."
 
@@ -488,6 +490,38 @@ def r4_direction(ck, rule="C04-R4"):
     ck.floor(rule, "real (aborting) rollback call sites", n, 1)
 
 
+def r5_context_stays_intact(ck, rule="C04-R5"):
+    """Undoing a hunk re-matches its whole new side, context included, in the fully patched file.  That can only succeed for every
+    stack of hunks if no later hunk of the file patch may change a line inside this hunk's matched range: the line handed on as
+    'frozen' has to be the end of the matched range, not the end of its changed part."""
+    from .. import seqmodel
+    am = ck.anchor("FilePatch::<'a, &'a [u8]>::apply_modify")
+    if am is None:
+        return
+    fl_ = [l for l, nm in am.names.items() if nm == "last_frozen_line"]
+    if not ck.require(len(fl_) == 1, rule, "frozen line variable in apply_modify", "found %d" % len(fl_), am.where()):
+        return
+    ins_ = [dd for dd in df.defs_of(am).all(fl_[0]) if dd[0] == "stmt" and cfg.innermost_loop_of(am, dd[1])]
+    if not ck.require(len(ins_) == 1, rule, "one update of the frozen line per applied hunk", "%d updates" % len(ins_), am.where()):
+        return
+    e = df.rvalue_expr(am, ins_[0][3]["rv"])
+    hv = [x for x in df.walk(e) if df.is_call(x, "Hunk::<'a, Line>::view")]
+    good = False
+    if hv:
+        W = hv[0]
+        m = seqmodel.Model([("line", lambda x: isinstance(x, tuple) and x[0] == "field" and x[2] == "line" and isinstance(x[1], tuple) and x[1][0] == "downcast" and x[1][2] == "Applied"),
+                            ("sfx", lambda x: df.is_call(x, "::suffix_context") and x[2][0] == W)],
+                           seqsyms=[("r", lambda x: df.is_call(x, "::remove_content") and x[2][0] == W)])
+        try:
+            good = all(m.val(e, env) >= env["line"] + env["r"] for env in seqmodel.valuations(["line"], ["r", "sfx"], 3) if env["sfx"] <= env["r"])
+        except seqmodel.Unsupported:
+            good = False
+    ck.require(good, rule, "later hunks may not change lines inside an applied hunk's matched range",
+               "the frozen line handed to the next hunk is %s: it ends before the trailing context of the hunk just applied, so a later hunk may change "
+               "a line there; undoing the earlier hunk then no longer finds its new side and the rollback aborts ('This is a bug')" % df.show(e, 160),
+               am.where(ins_[0][3]), ok_detail=df.show(e, 160))
+
+
 def run(ck):
     r1_fields_restored(ck)
     r2_single_caller(ck)
@@ -495,3 +529,4 @@ def run(ck):
     r3b_pop_after_rollback(ck)
     r4_replay(ck)
     r4_direction(ck)
+    r5_context_stays_intact(ck)
